@@ -739,6 +739,9 @@ func runC20(c *Ctx) {
 		if fd == nil {
 			continue
 		}
+		// arms are read with the package's small helpers expanded (inline.go): moving an arm's statements into
+		// `p.branchIf(..)` or a whole format group into its own method does not change what the arm does
+		fd = &ast.FuncDecl{Doc: fd.Doc, Recv: fd.Recv, Name: fd.Name, Type: fd.Type, Body: InlinedBody(pk, fd)}
 		e := &emuCtx{c: c, p: p, pk: pk, info: pk.TypesInfo, arch: a.arch}
 		if tn, ok := pk.Types.Scope().Lookup(a.uintName).(*types.TypeName); ok {
 			e.xlen, _ = typeWidth(tn.Type())
@@ -1026,7 +1029,7 @@ func (e *emuCtx) checkArm(key, loc, name, format string, sp emuSpec, arm Arm, f 
 			msg := ""
 			n := 0
 			for _, as := range f.pcWrites {
-				if as.Pos() >= ifs.Body.Pos() && as.End() <= ifs.Body.End() {
+				if nodeContains(ifs.Body, as) {
 					n++
 					if m := pcTarget(as); m != "" {
 						msg = m
